@@ -96,3 +96,26 @@ func (r *NonceReader) Read(p []byte) (int, error) {
 }
 
 var _ io.Reader = (*NonceReader)(nil)
+
+// Intact reports "" when the key object still holds exactly the numbers of k (library calls must not modify the
+// caller's key objects: they are long-lived and shared), otherwise what changed.
+func Intact(p *sm2.PrivateKey, k gen.Key) string {
+	x, y := k.Pub.Affine()
+	switch {
+	case p.D == nil || p.D.Cmp(k.D) != 0:
+		return "private scalar D"
+	case p.X == nil || p.X.Cmp(x) != 0:
+		return "public X"
+	case p.Y == nil || p.Y.Cmp(y) != 0:
+		return "public Y"
+	}
+	return ""
+}
+
+func IntactPub(p *sm2.PublicKey, q rsm2.Point) string {
+	x, y := q.Affine()
+	if p.X == nil || p.Y == nil || p.X.Cmp(x) != 0 || p.Y.Cmp(y) != 0 {
+		return "public key coordinates"
+	}
+	return ""
+}
